@@ -16,7 +16,8 @@ METHODS = ["jacobian_self_oplus_other_wrt_self", "jacobian_self_oplus_other_wrt_
            "jacobian_boxplus", "jacobian_self_oplus_point_wrt_self", "jacobian_self_oplus_point_wrt_point", "jacobian_inverse"]
 RULE = ("cases from rng(seed, 10, 0, i): pose kind = i mod 4, hostile operands (as C09); all 12 Jacobian methods are evaluated per case: shape, compact-row relation, "
         "manifold derivative vs AD (6/3/2 tangent directions), ambient derivative for R^n/SE(2); every 3rd case repeats everything after the returned matrices were scribbled on and the pose objects modified in place. distinct = fingerprint of operands; non-trivial = both operands have "
-        "non-zero translation and (SE types) non-identity rotation.")
+        "non-zero translation and (SE types) non-identity rotation."
+        " later additions: partly coinciding operands, operands far from the origin but close together, operands used (matrix form, inverse, compositions) before their Jacobians are requested.")
 REQ = ["eval:shape", "eval:compact-rows", "eval:manifold-derivative", "eval:ambient-derivative", "eval:boxplus-jacobian", "class:kind:se3", "class:kind:se2", "class:q:wneg", "class:q:wzero",
        "class:a:nearpi_in", "class:after_inplace_modification", "class:far_from_origin_close_together"] + ["method:" + m for m in METHODS]
 PLAN = {
